@@ -235,6 +235,10 @@ def evaluate(ctx, batch, real_cmd, model_cmd, env, problems, reasons):
                     rs = ("nul", "nul")
                     vkey = "ctx:nul-byte-taken-for-a-delimiter"
                     why = "NUL byte in the input: " + why
+                if batch.label == "comment-in-place-of-value":
+                    rs = ("cv", "cv")
+                    vkey = "ctx:comment-in-place-of-value"
+                    why = "a comment where the value should be: " + why
                 if batch.label == "comment-context":
                     # one finding for all kinds: CheckRemainingInput treats a comment before the delimiter as garbage
                     rs = ("comment", "comment")
@@ -282,6 +286,12 @@ def evaluate(ctx, batch, real_cmd, model_cmd, env, problems, reasons):
             if r != " | ".join(parts[:2]):
                 problems.append(("correspondence", line, f"impl {r!r} vs model {' | '.join(parts[:2])!r}", None))
                 nprob += 1
+        elif meta[0] == "rdc":
+            ctx.count(1, key=line)
+            ctx.hist("kind", "sep-" + meta[1])
+            if r != parts[0]:
+                problems.append(("correspondence", line, f"impl {r!r} vs model {parts[0]!r}", None))
+                nprob += 1
         else:   # fl / st : pure model-vs-platform comparisons (FloatLaws L1-L3, IStream)
             ctx.count(1, key=line)
             ctx.hist("kind", meta[0])
@@ -326,6 +336,22 @@ def literal_batches(ctx, quick):
         for tok in corp.get(kind + "_valid", []):
             for c in COMMENT_CTX:
                 b.rd(kind, 0, tok, c)
+    out.append(b)
+    # what follows the value, exhaustively over blanks / comment characters / garbage / delimiters: model vs implementation
+    # only (most of these are not delimiter contexts, so the statement's oracle does not apply)
+    b = Batch("separator-exhaustive")
+    for kind, tok in (("INTEGER", "12"), ("STRING", "'a'"), ("ENUM", ".RED."), ("REF", "#5"), ("REAL", "1.5")):
+        for n in range(0, 6 if quick else 8):
+            for t in itertools.product(" /*x,", repeat=n):
+                b.lines.append(rd_line(kind, 0, tok, "".join(t)))
+                b.meta.append(("rdc", kind))
+    out.append(b)
+    # a comment where the value should be (STEPattribute::STEPread called directly; the file reader strips leading comments)
+    b = Batch("comment-in-place-of-value")
+    for kind in KINDS:
+        for tok in ["/**/", "/* c */"]:
+            for opt in (0, 1):
+                b.rd(kind, opt, tok, ",")
     out.append(b)
     # a NUL byte: strchr(",)", 0) != NULL makes CheckRemainingInput take it for a delimiter
     b = Batch("nul-byte")
